@@ -31,6 +31,7 @@ func init() {
 			c06Flush(c)
 			c06FlushOrder(c)
 			c06HalfClose(c)
+			c06ThreeParties(c)
 			c06Many(c)
 			runMatrix(c, "C06")
 		},
@@ -600,5 +601,79 @@ func c06HalfClose(c *ev.Ctx) {
 		out, dump := s.P.Close()
 		hang(c, out, dump, "C06:half-close:Handle-does-not-return", nil)
 		c.Case(fmt.Sprintf("half-close:%v", order), true)
+	}
+}
+
+// c06ThreeParties: A (a read on directory /a) is parked in the backend; W, a
+// write-class request on /a, queues behind it; R, a rename elsewhere on the
+// server, queues behind W (a rename waits for everything). Then A is released.
+// All three are answered: a request that is waiting may hold the rename lock
+// for reading once, not twice - a second acquisition behind the queued rename
+// would never be granted.
+func c06ThreeParties(c *ev.Ctx) {
+	ops := concOps()
+	byName := map[string]cop{}
+	for _, o := range ops {
+		byName[o.name] = o
+	}
+	idx := 0
+	for _, wn := range []string{"create", "mkdir", "symlink", "mknod", "link", "unlinkat", "setattr"} {
+		for _, rn := range []string{"renameat", "rename"} {
+			idx++
+			if !c.Mine(idx) {
+				continue
+			}
+			c.Begin(fmt.Sprintf("C06 three parties W=%s R=%s", wn, rn))
+			w, ok := newConcWorld(2)
+			if !ok {
+				c.Inconclusive("three-parties world")
+				w.close()
+				continue
+			}
+			ca, cb := w.conns[0], w.conns[1]
+			fa, ok1 := ca.fidAt("/a", 'u', true)
+			fw, ok2 := ca.fidAt("/a", 'u', true)
+			var fr uint64
+			var ok3 bool
+			if rn == "renameat" {
+				fr, ok3 = cb.fidAt("/d", 'u', true)
+			} else {
+				fr, ok3 = cb.fidAt("/d/x", 'u', false)
+			}
+			if !ok1 || !ok2 || !ok3 {
+				c.Inconclusive("three-parties setup")
+				w.close()
+				continue
+			}
+			g := w.fs.Hold(memfs.Match{Method: "GetAttr", Path: "/a"}, 1)
+			fromA, fromB := ca.p.NReplies(), cb.p.NReplies()
+			byName["getattr"].send(ca.p, 500, fa, 801, "g")
+			if o, _ := g.WaitParked(1); o != quiesce.CondMet {
+				g.Release()
+				c.Case("three-parties:not-parked", false)
+				w.close()
+				continue
+			}
+			byName[wn].send(ca.p, 501, fw, 801, "h")
+			quiesce.WaitUntil(func() bool { return ca.p.HasReplyFrom(501, fromA) != nil }, wd) // W gets as far as it can
+			byName[rn].send(cb.p, 502, fr, 801, "x")
+			quiesce.WaitUntil(func() bool { return cb.p.HasReplyFrom(502, fromB) != nil }, wd)
+			g.Release()
+			det := map[string]any{"W": wn, "R": rn}
+			for _, x := range []struct {
+				p   *rawpeer.Peer
+				tag uint16
+				fr  int
+				who string
+			}{{ca.p, 500, fromA, "A"}, {ca.p, 501, fromA, "W"}, {cb.p, 502, fromB, "R"}} {
+				if _, ok, o, d := x.p.WaitTag(x.tag, x.fr); !ok {
+					hang(c, o, d, "C06:three-parties:request-never-answered:"+x.who+":"+wn, det)
+					break
+				}
+			}
+			c.Case("three-parties:"+wn+":"+rn, true)
+			c.Count("three_party_rounds", 1)
+			w.close()
+		}
 	}
 }
